@@ -2,7 +2,7 @@ import StoneVerif.Lemmas.FeCompileEq
 set_option linter.unusedSimpArgs false
 /-!
 Closure of the specification-level image: every (namespace, name) a type expression, a parent link or an
-enumerated-subtype link of `denote fs` mentions is a data type / alias that `denote fs` holds in that namespace.
+enumerated-subtype link of `denoteCore fs` mentions is a data type / alias that `denoteCore fs` holds in that namespace.
 -/
 namespace StoneVerif.FeCompile.L
 open StoneVerif.FeCompile
@@ -378,9 +378,9 @@ theorem ns_of_decl {fs ns} {d : Decl} (h : d ∈ declsOf fs ns) : ns ∈ nsNames
   exact Or.inr ⟨f, hf, hn⟩
 
 /-- the namespace entry `Api.ns?` finds is the image of that namespace -/
-theorem ns?_of_denote {rx fs api ns} (h : denote rx fs = some api) (hn : ns ∈ nsNames fs []) :
+theorem ns?_of_denote {rx fs api ns} (h : denoteCore rx fs = some api) (hn : ns ∈ nsNames fs []) :
     ∃ o, api.ns? ns = some o ∧ NsGood rx fs ns o := by
-  unfold denote at h
+  unfold denoteCore at h
   cases ho : optMapM (denoteNs rx fs) (nsNames fs []) with
   | none => simp [ho] at h
   | some outs =>
@@ -405,7 +405,7 @@ theorem ns?_of_denote {rx fs api ns} (h : denote rx fs = some api) (hn : ns ∈ 
       subst this
       exact ⟨o', rfl, hgood'⟩
 
-theorem hasType_of_isType {rx fs api k} (h : denote rx fs = some api) (hk : IsType fs k) : api.hasType k = true := by
+theorem hasType_of_isType {rx fs api k} (h : denoteCore rx fs = some api) (hk : IsType fs k) : api.hasType k = true := by
   obtain ⟨d, hd, hn⟩ := hk
   obtain ⟨o, ho, hg⟩ := ns?_of_denote h (ns_of_decl hd)
   unfold Api.hasType Api.type?
@@ -414,7 +414,7 @@ theorem hasType_of_isType {rx fs api k} (h : denote rx fs = some api) (hk : IsTy
   rw [← hn]
   exact hg.hasTypes d hd
 
-theorem hasAlias_of_isAlias {rx fs api k} (h : denote rx fs = some api) (hk : IsAlias fs k) : api.hasAlias k = true := by
+theorem hasAlias_of_isAlias {rx fs api k} (h : denoteCore rx fs = some api) (hk : IsAlias fs k) : api.hasAlias k = true := by
   obtain ⟨r, hd⟩ := hk
   obtain ⟨o, ho, hg⟩ := ns?_of_denote h (ns_of_decl hd)
   unfold Api.hasAlias Api.alias?
@@ -422,10 +422,10 @@ theorem hasAlias_of_isAlias {rx fs api k} (h : denote rx fs = some api) (hk : Is
   simp only [Option.bind_some]
   exact hg.hasAliases k.2 r hd
 
-theorem denote_closed {rx fs api} (h : denote rx fs = some api) : api.closed = true := by
+theorem denote_closed {rx fs api} (h : denoteCore rx fs = some api) : api.closed = true := by
   have hall : ∀ o ∈ api.nss, ∃ ns, NsGood rx fs ns o := by
     intro o hm
-    unfold denote at h
+    unfold denoteCore at h
     cases ho : optMapM (denoteNs rx fs) (nsNames fs []) with
     | none => simp [ho] at h
     | some outs =>
